@@ -53,6 +53,28 @@ func (g *G) Bucket() (*of.Bucket, *spec.Node) {
 		b.AddAction(as[i])
 		n.Add(ns[i])
 	}
+	// Late growth: a bucket sizes its actions when it is asked (Bucket.Len walks the
+	// list), so - unlike instructions, packet-out and ct, which capture a child's size
+	// when it is added - a conntrack action may still receive nested actions after it
+	// was put into the bucket. Built that way in a fraction of the cases.
+	if g.Budget > 256 && g.Chance("late_growth", 1, 5) {
+		ct := of.NewNXActionConnTrack()
+		cn := spec.N("nx.ct", spec.U("flags", 0), spec.U("zone_src", 0), spec.U("zone_ofs_nbits", 0), spec.U("recirc_table", 0xff), spec.U("alg", 0))
+		b.AddAction(ct)
+		n.Add(cn)
+		g.Budget -= 24
+		for i, k := 0, g.Int("late_nested", 1, 3); i < k; i++ {
+			sub, sn := genNAT(g)
+			if g.Bool("late_other") {
+				sub, sn, _ = g.Action()
+			}
+			g.Budget -= len(spec.Encode(sn))
+			ct.AddAction(sub)
+			cn.Add(sn)
+		}
+		g.Label("late_growth_in_bucket")
+		g.Label("nested_ct")
+	}
 	return b, n
 }
 
